@@ -12,8 +12,10 @@
   of a section that became empty; (3) findings: which findings are shown, and at which filter level,
   does not depend on batch / colours / level / JSON, and verbose shows the same findings; (4) colour
   escapes strip to the plain text; (5) JSON mode: exactly one entry, the document, at every level;
-  (6) the known deviations as negations with witnesses: D32 (blank line for a filtered verbose
-  message), C15-VJ (`-v -j` prints text before the document), D05 (error text after the document).
+  (6) the remaining known deviations as negations with witnesses: D32-empty (a report with nothing
+  left at the level is written as one blank line), D05 (error text after the JSON document).
+  (D32 — a filtered verbose message flushed as a blank line — and C15-VJ — `-v -j` printing text
+  before the document — were repaired in /repo, commits 97f1553 and 7081fa0; the model follows.)
 -/
 import SshAudit.Lemmas.Output
 import SshAudit.Lemmas.Report
@@ -280,35 +282,30 @@ theorem level_keeps_passing (cfg : Cfg) (L : Nat) (inp : Input) (it : Item) (hi 
     exact List.mem_filter.mpr ⟨hit, hk⟩
   · right; exact List.mem_filter.mpr ⟨h, hk⟩
 
-/-! #### stdout with the verbose messages: the statement holds on non-blank lines, not on all lines (D32) -/
+/-! #### stdout: the verbose messages and `main()`'s final `write()` -/
 
 def nonBlank (l : List Str) : List Str := l.filter (fun t => !t.isEmpty)
 
-theorem nonBlank_vWrites (cfg : Cfg) (L : Nat) (vmsgs : List Str) :
-    (nonBlank (outEntries (vWrites (atLevel cfg L) vmsgs))).Sublist (nonBlank (outEntries (vWrites (atLevel cfg 0) vmsgs))) := by
-  unfold vWrites
-  have hv : (atLevel cfg L).verbose = cfg.verbose := rfl
-  have hd : (atLevel cfg L).debug = cfg.debug := rfl
-  have hv0 : (atLevel cfg 0).verbose = cfg.verbose := rfl
-  have hd0 : (atLevel cfg 0).debug = cfg.debug := rfl
+/-- the verbose messages at level `L` are those of level `info`, or none (a message the level drops is not flushed: the D32 repair) -/
+theorem vWrites_atLevel (cfg : Cfg) (L : Nat) (vmsgs : List Str) :
+    vWrites (atLevel cfg L) vmsgs = vWrites (atLevel cfg 0) vmsgs ∨ vWrites (atLevel cfg L) vmsgs = [] := by
+  have h0 : passes 0 .info false = true := by simp [passes, getLevel]
   have hl : (atLevel cfg L).level = L := rfl
   have hl0 : (atLevel cfg 0).level = 0 := rfl
-  rw [hv, hd, hv0, hd0, hl, hl0]
-  cases (cfg.verbose || cfg.debug)
-  · exact List.Sublist.refl _
-  · simp only [if_true]
-    cases hp : passes L .info false
-    · -- every message is filtered: only blank lines are written
-      have : nonBlank (outEntries (vmsgs.map (fun m => if false = true then [m] else ([] : List Str)))) = [] := by
-        induction vmsgs with
-        | nil => rfl
-        | cons m rest ih =>
-          simp only [Bool.false_eq_true, if_false, List.map_cons, outEntries, List.flatMap_cons] at ih ⊢
-          simp only [nonBlank, List.filter_append] at ih ⊢
-          rw [ih]; rfl
-      rw [this]; exact List.nil_sublist _
-    · have h0 : passes 0 .info false = true := by simp [passes, getLevel]
-      rw [h0]; exact List.Sublist.refl _
+  have hv : (atLevel cfg L).verbose = (atLevel cfg 0).verbose := rfl
+  have hj : (atLevel cfg L).json = (atLevel cfg 0).json := rfl
+  have hd : (atLevel cfg L).debug = (atLevel cfg 0).debug := rfl
+  unfold vWrites
+  rw [hl, hl0, hv, hj, hd, h0]
+  cases hp : passes L .info false
+  · right; simp
+  · left; rfl
+
+theorem vWrites_sublist (cfg : Cfg) (L : Nat) (vmsgs : List Str) :
+    (outEntries (vWrites (atLevel cfg L) vmsgs)).Sublist (outEntries (vWrites (atLevel cfg 0) vmsgs)) := by
+  rcases vWrites_atLevel cfg L vmsgs with h | h
+  · rw [h]; exact List.Sublist.refl _
+  · rw [h]; exact List.nil_sublist _
 
 theorem outEntries_append (a b : List (List Str)) : outEntries (a ++ b) = outEntries a ++ outEntries b := by
   simp [outEntries]
@@ -324,7 +321,7 @@ theorem stdout_nonblank_only_deletes (cfg : Cfg) (L : Nat) (vmsgs : List Str) (i
   rw [stdout_eq, stdout_eq, outEntries_append, outEntries_append]
   unfold nonBlank
   rw [List.filter_append, List.filter_append]
-  apply List.Sublist.append (nonBlank_vWrites cfg L vmsgs)
+  apply List.Sublist.append ((vWrites_sublist cfg L vmsgs).filter _)
   have h := level_only_deletes cfg L inp
   rw [render_eq_closed, render_eq_closed] at h
   have h1 := nonBlank_written (renderClosed (atLevel cfg L) inp)
@@ -333,49 +330,18 @@ theorem stdout_nonblank_only_deletes (cfg : Cfg) (L : Nat) (vmsgs : List Str) (i
   rw [h1, h2]
   exact h.filter _
 
-def d32Report : Report.Report :=
-  { kex := [{ cat := kexC, name := s "k", shown := s "k", notes := [{ level := .warn, text := s "w" }], unknown := false }],
-    key := [], enc := [], mac := [], status := 2, compression := [], recs := [], notes := [], unknown := [] }
-
-def d32Cfg : Cfg := { batch := true, verbose := true }
-
-/-- **D32 (known finding): on all lines the statement is false.**  With `-b -v -l warn` the filtered message `Starting audit of …`
-    is flushed by `write_now` as an empty buffer: stdout starts with a blank line, the info-level stdout contains no blank line at all. -/
-theorem d32_blank_line_added :
-    ([] : Str) ∈ outEntries (stdoutOf (atLevel d32Cfg 1) [s "Starting audit of h:22..."] { report := d32Report }) ∧
-    ([] : Str) ∉ outEntries (stdoutOf (atLevel d32Cfg 0) [s "Starting audit of h:22..."] { report := d32Report }) := by
-  rw [stdout_eq, stdout_eq]
-  decide
-
-/-- **D32-empty (finding, same mechanism):** when nothing of the report reaches the level, the final `write()` prints the empty buffer as
-    one blank line (`-b -l fail` on a peer with warnings only); the info-level batch output has no blank line. -/
-theorem empty_report_blank_line :
-    outEntries (stdoutOf (atLevel { batch := true } 2) [] { report := d32Report }) = [[]] ∧
-    ([] : Str) ∉ outEntries (stdoutOf (atLevel { batch := true } 0) [] { report := d32Report }) := by
-  rw [stdout_eq, stdout_eq]
-  decide
-
-theorem stdout_all_lines_false :
-    ¬ (∀ (cfg : Cfg) (L : Nat) (vmsgs : List Str) (inp : Input),
-        (outEntries (stdoutOf (atLevel cfg L) vmsgs inp)).Sublist (outEntries (stdoutOf (atLevel cfg 0) vmsgs inp))) := by
-  intro h
-  have hs := h d32Cfg 1 [s "Starting audit of h:22..."] { report := d32Report }
-  exact d32_blank_line_added.2 (hs.subset d32_blank_line_added.1)
-
-/-- without verbose messages (no `-v`, no `-d`) the statement holds on all lines of stdout whenever the level-`L` report is non-empty -/
-theorem stdout_quiet_only_deletes (cfg : Cfg) (hv : cfg.verbose = false) (hd : cfg.debug = false) (L : Nat) (vmsgs : List Str) (inp : Input)
-    (hne : render (atLevel cfg L) inp ≠ []) :
+/-- **On all lines of stdout** — verbose and debug messages included — raising the level only deletes lines, whenever something of the
+    report is left at that level (after the D32 repair; every option set, every input). -/
+theorem stdout_only_deletes (cfg : Cfg) (L : Nat) (vmsgs : List Str) (inp : Input) (hne : render (atLevel cfg L) inp ≠ []) :
     (outEntries (stdoutOf (atLevel cfg L) vmsgs inp)).Sublist (outEntries (stdoutOf (atLevel cfg 0) vmsgs inp)) := by
-  rw [stdout_eq, stdout_eq]
-  have h1 : vWrites (atLevel cfg L) vmsgs = [] := by simp [vWrites, atLevel, hv, hd]
-  have h2 : vWrites (atLevel cfg 0) vmsgs = [] := by simp [vWrites, atLevel, hv, hd]
-  rw [h1, h2]
+  rw [stdout_eq, stdout_eq, outEntries_append, outEntries_append]
+  apply List.Sublist.append (vWrites_sublist cfg L vmsgs)
   have h := level_only_deletes cfg L inp
   rw [render_eq_closed] at hne
   rw [render_eq_closed, render_eq_closed] at h
   have hne0 : renderClosed (atLevel cfg 0) inp ≠ [] := by
     intro h0; rw [h0] at h; exact hne (List.sublist_nil.mp h)
-  simp only [List.nil_append, outEntries, List.flatMap_cons, List.flatMap_nil, List.append_nil]
+  simp only [outEntries, List.flatMap_cons, List.flatMap_nil, List.append_nil]
   have e1 : (renderClosed (atLevel cfg L) inp).isEmpty = false := by
     cases hh : renderClosed (atLevel cfg L) inp with
     | nil => exact absurd hh hne
@@ -386,6 +352,34 @@ theorem stdout_quiet_only_deletes (cfg : Cfg) (hv : cfg.verbose = false) (hd : c
     | cons a b => rfl
   rw [e1, e2]
   exact h
+
+/-- a peer with one warning and nothing else -/
+def warnOnlyReport : Report.Report :=
+  { kex := [{ cat := kexC, name := s "k", shown := s "k", notes := [{ level := .warn, text := s "w" }], unknown := false }],
+    key := [], enc := [], mac := [], status := 2, compression := [], recs := [], notes := [], unknown := [] }
+
+/-- the D32 witness after the repair: `-b -v -l warn` no longer starts with a blank line — stdout is a sub-list of the info-level stdout -/
+theorem d32_repaired :
+    ([] : Str) ∉ outEntries (stdoutOf (atLevel { batch := true, verbose := true } 1) [s "Starting audit of h:22..."] { report := warnOnlyReport }) := by
+  rw [stdout_eq]
+  decide
+
+/-- **D32-empty (known finding):** when nothing of the report reaches the level, `main()`'s final `write()` prints the empty buffer as
+    one blank line (`-b -l fail` on a peer with warnings only); the info-level batch output has no blank line. -/
+theorem empty_report_blank_line :
+    outEntries (stdoutOf (atLevel { batch := true } 2) [] { report := warnOnlyReport }) = [[]] ∧
+    ([] : Str) ∉ outEntries (stdoutOf (atLevel { batch := true } 0) [] { report := warnOnlyReport }) := by
+  rw [stdout_eq, stdout_eq]
+  decide
+
+/-- … hence without the non-emptiness hypothesis the all-lines statement is false -/
+theorem stdout_all_lines_false :
+    ¬ (∀ (cfg : Cfg) (L : Nat) (vmsgs : List Str) (inp : Input),
+        (outEntries (stdoutOf (atLevel cfg L) vmsgs inp)).Sublist (outEntries (stdoutOf (atLevel cfg 0) vmsgs inp))) := by
+  intro h
+  have hs := h { batch := true } 2 [] { report := warnOnlyReport }
+  have hw := empty_report_blank_line
+  exact hw.2 (hs.subset (by rw [hw.1]; simp))
 
 /-! ### (3) findings -/
 
@@ -776,30 +770,23 @@ theorem json_option_free (cfg cfg' : Cfg) (hj : cfg.json = true) (hj' : cfg'.jso
     render cfg inp = render cfg' inp := by
   rw [json_once _ hj, json_once _ hj']; unfold jsonDoc; rw [hi]
 
-/-- without `-v`/`-d`, stdout of a JSON audit is the document and a newline — one write, at every level -/
-theorem json_stdout_quiet (cfg : Cfg) (hj : cfg.json = true) (hv : cfg.verbose = false) (hd : cfg.debug = false) (vmsgs : List Str) (inp : Input) :
-    stdoutOf cfg vmsgs inp = [[jsonDoc cfg inp]] ∧ outText (stdoutOf cfg vmsgs inp) = jsonDoc cfg inp ++ ['\n'] := by
+/-- **stdout of a completed JSON audit is exactly the document and a newline — one write — for every option set without `-d`**:
+    any level, with or without `-v` (the C15-VJ repair: `v()` is silent in JSON mode), batch, colours. -/
+theorem json_stdout_single (cfg : Cfg) (hj : cfg.json = true) (hd : cfg.debug = false) (vmsgs : List Str) (inp : Input) :
+    stdoutOf cfg vmsgs inp = [[jsonDoc cfg inp]] ∧ outEntries (stdoutOf cfg vmsgs inp) = [jsonDoc cfg inp] ∧
+    outText (stdoutOf cfg vmsgs inp) = jsonDoc cfg inp ++ ['\n'] := by
   have : stdoutOf cfg vmsgs inp = [[jsonDoc cfg inp]] := by
-    rw [stdout_eq]; unfold renderClosed; rw [if_pos hj]; simp [vWrites, hv, hd]
+    rw [stdout_eq]; unfold renderClosed; rw [if_pos hj]; simp [vWrites, hj, hd]
   rw [this]
-  exact ⟨rfl, by simp [outText, Text.join]⟩
+  exact ⟨rfl, by simp [outEntries], by simp [outText, Text.join]⟩
 
-/-- **C15-VJ (finding): `-v -j` is not one document.**  In verbose mode every message is written before the document: at level `info`
-    as text, above as a blank line. -/
-theorem json_stdout_verbose (cfg : Cfg) (hj : cfg.json = true) (hv : cfg.verbose = true) (vmsgs : List Str) (inp : Input) :
-    stdoutOf cfg vmsgs inp = vmsgs.map (fun m => if passes cfg.level .info false then [m] else []) ++ [[jsonDoc cfg inp]] := by
-  rw [stdout_eq]; unfold renderClosed; rw [if_pos hj]; simp [vWrites, hv]
+/-- the former C15-VJ witness: `-v -j` now prints the document only -/
+theorem json_verbose_repaired :
+    outEntries (stdoutOf { json := true, verbose := true } [s "Starting audit of h:22..."] { report := warnOnlyReport, jsonCompact := s "{}" }) = [s "{}"] :=
+  (json_stdout_single _ rfl rfl _ _).2.1
 
-theorem json_single_document_false :
-    ¬ (∀ (cfg : Cfg) (vmsgs : List Str) (inp : Input), cfg.json = true → outEntries (stdoutOf cfg vmsgs inp) = [jsonDoc cfg inp]) := by
-  intro h
-  have := h { json := true, verbose := true } [s "Starting audit of h:22..."] { report := d32Report, jsonCompact := s "{}" } rfl
-  rw [json_stdout_verbose _ rfl rfl] at this
-  revert this
-  decide
-
-/-- **D05 (known finding): after a handshake error the document is followed by the raw error text** in the same write. -/
-theorem json_error_path (cfg : Cfg) (hj : cfg.json = true) (hl : cfg.level ≤ 2) (hv : cfg.verbose = false) (hd : cfg.debug = false)
+/-- **D05 (known finding): after a handshake error the document is followed by the raw error text** in the same write (any option set without `-d`). -/
+theorem json_error_path (cfg : Cfg) (hj : cfg.json = true) (hl : cfg.level ≤ 2) (hd : cfg.debug = false)
     (vmsgs : List Str) (inp : Input) (err : Str) :
     stdoutOfError cfg vmsgs inp err = [[jsonDoc cfg inp, paint cfg.colors .fail err]] := by
   rw [stdoutOfError_eq]
@@ -807,13 +794,14 @@ theorem json_error_path (cfg : Cfg) (hj : cfg.json = true) (hl : cfg.level ≤ 2
     simp [passes, getLevel]; omega
   unfold renderClosed
   rw [if_pos hj, hp]
-  simp [vWrites, hv, hd]
+  simp [vWrites, hj, hd]
 
 theorem json_error_not_single :
-    ¬ (∀ (cfg : Cfg) (vmsgs : List Str) (inp : Input) (err : Str), cfg.json = true → outEntries (stdoutOfError cfg vmsgs inp err) = [jsonDoc cfg inp]) := by
+    ¬ (∀ (cfg : Cfg) (vmsgs : List Str) (inp : Input) (err : Str), cfg.json = true → cfg.debug = false →
+        outEntries (stdoutOfError cfg vmsgs inp err) = [jsonDoc cfg inp]) := by
   intro h
-  have := h { json := true } [] { report := d32Report, hasKex := false, jsonCompact := s "{}" } (s "[exception] error reading packet (timed out)") rfl
-  rw [json_error_path _ rfl (by decide) rfl rfl] at this
+  have := h { json := true } [] { report := warnOnlyReport, hasKex := false, jsonCompact := s "{}" } (s "[exception] error reading packet (timed out)") rfl rfl
+  rw [json_error_path _ rfl (by decide) rfl] at this
   revert this
   decide
 
